@@ -1,0 +1,17 @@
+//go:build verif
+
+package client
+
+// VerifCacheUsage reports, for the verification harness, how many response body bytes the cache of r holds on to
+// (every entry that can still be found through its URL index), how many bytes it accounts for, and its configured maximum.
+func VerifCacheUsage(r *CachingRoundTripper) (retained int, accounted int, maxBytes int) {
+	c := r.cache
+	c.mux.RLock()
+	defer c.mux.RUnlock()
+	for _, entries := range c.entriesByURL {
+		for _, entry := range entries {
+			retained += len(entry.responseData)
+		}
+	}
+	return retained, c.currentSizeBytes, c.maxBytes
+}
